@@ -22,7 +22,7 @@ import (
 
 func init() {
 	props["C10"] = &propDef{
-		rule: "cases = (progressive file, crop duration) pairs run through the built cmd/mp4ff-crop binary: files from harness/progfile.go (1..4 tracks, random chunking/interleaving/gaps, stco|co64, ctts/stss/sdtp present or absent, mdat before or after moov, 8/16-byte mdat header), from the extended generator c10_gen.go (adds edts/elst, uniform stsz, ctts v1, 14 time scales, movie time scales 600/1000/90000, audio-only and audio-first files, round-robin/sequential layouts, sync samples a fraction of a millisecond before a whole millisecond, samples of other tracks within one tick of the converted end time) and the repository's progressive test files; durations = 1,2,3 ms, for every sync sample of the reference track its start in ms -1/+0/+1/+2, every track end -1/+0/+1, random points, beyond the end, and EVERY millisecond for files shorter than 400 ms (quick) / 1500 ms (thorough); oracle = independent raw-byte expansion of input and output sample tables; non-trivial = distinct (file, duration) on which the tool succeeded and at least one track was really cut",
+		rule: "cases = (progressive file, crop duration) pairs run through the built cmd/mp4ff-crop binary: files from harness/progfile.go (1..4 tracks, random chunking/interleaving/gaps, stco|co64, ctts/stss/sdtp present or absent, mdat before or after moov, 8/16-byte mdat header), from the extended generator c10_gen.go (adds edts/elst, uniform stsz, ctts v1, 14 time scales, movie time scales 600/1000/90000, audio-only and audio-first files, round-robin/sequential layouts, sync samples a fraction of a millisecond before a whole millisecond, samples of other tracks within one tick of the converted end time) from the long-track generator c10_long.go (tracks of 1..2.6 x 2^32 ticks: 10 MHz / microsecond time scales at 1..50 fps, 90 kHz tracks with one picture per 2 or 10 s, up to 30000 tiny samples, one or a few stts runs, with ordinary companion tracks) and the repository's progressive test files; durations = 1,2,3 ms, for every sync sample of the reference track its start in ms -1/+0/+1/+2, every track end -1/+0/+1, every multiple of 2^32 ticks of a track and the first sync sample after it -1/+0/+1, random points, beyond the end, and EVERY millisecond for files shorter than 400 ms (quick) / 1500 ms (thorough); oracle = independent raw-byte expansion of input and output sample tables; non-trivial = distinct (file, duration) on which the tool succeeded and at least one track was really cut",
 		gen:  genC10,
 		exec: execC10,
 	}
@@ -173,7 +173,7 @@ func parallelDo(n int, f func(i int)) {
 // ---------- inputs
 
 // progInputBytes resolves an input description ("prog seed ntracks max" | "ext seed ntracks max flavor" |
-// "repo path") to file bytes.
+// "long seed ntracks" | "repo path") to file bytes.
 func progInputBytes(f []string) ([]byte, *progFile, error) {
 	switch f[0] {
 	case "prog":
@@ -190,6 +190,13 @@ func progInputBytes(f []string) ([]byte, *progFile, error) {
 		seed, _ := strconv.ParseInt(f[1], 10, 64)
 		pe := genProgExt(rand.New(rand.NewSource(seed)), atoi(f[2]), atoi(f[3]), f[4])
 		return pe.bytes, pe.progFile, nil
+	case "long":
+		if len(f) < 3 {
+			return nil, nil, fmt.Errorf("bad input spec")
+		}
+		seed, _ := strconv.ParseInt(f[1], 10, 64)
+		pe := genProgLong(rand.New(rand.NewSource(seed)), atoi(f[2]))
+		return pe.bytes, pe.progFile, nil
 	case "repo":
 		d, err := os.ReadFile(repoPath(f[1]))
 		return d, nil, err
@@ -203,6 +210,8 @@ func inputSpecLen(kind string) int {
 		return 4
 	case "ext":
 		return 5
+	case "long":
+		return 3
 	}
 	return 2
 }
@@ -432,6 +441,10 @@ func cropDurations(r *rand.Rand, in *rawProg, quota int, exhaustBelow uint64) []
 		}
 		special = special[:quota*3/4]
 	}
+	// tracks longer than 2^32 ticks: the durations around each multiple of 2^32 ticks (none for shorter tracks)
+	for _, v := range wrapDurations(in) {
+		add(int64(v))
+	}
 	for len(special) < quota && totalMS > 0 {
 		v := uint64(1 + r.Int63n(int64(totalMS)))
 		if !set[v] {
@@ -473,42 +486,57 @@ func genC10(c *Ctx) {
 			specs = append(specs, []string{"ext", sub, strconv.Itoa(1 + r.Intn(4)), strconv.Itoa(maxS), fl})
 		}
 	}
-	for _, spec := range specs {
+	runSpec := func(spec []string) bool {
 		if !c.deadline.IsZero() && time.Now().After(c.deadline) {
 			c.Note("time budget reached")
-			break
+			return false
 		}
 		data, pf, err := progInputBytes(spec)
 		if err != nil {
 			c.Note("input not available: " + strings.Join(spec, " ") + ": " + err.Error())
-			continue
+			return true
 		}
 		in, err := expandProg(data)
 		if err != nil {
 			c.Fail("C10-harness-input", "generated/selected input cannot be expanded by the harness", strings.Join(spec, " "), err.Error(), "")
-			continue
+			return true
 		}
 		if pf != nil {
 			if d := progSelfCheck(pf, in); d != "" {
 				c.Fail("C10-harness-input", "raw expansion of the generated file differs from what the generator wrote", strings.Join(spec, " "), d, "")
-				continue
+				return true
 			}
 		} else if p := in.problems(); len(p) > 0 {
 			c.Count("repo-file-skipped:inconsistent-tables")
 			c.Note("repository file skipped (tables not consistent per the harness expansion): " + spec[1] + ": " + p[0])
-			continue
+			return true
 		}
 		inFile, err := mp4.DecodeFile(bytes.NewReader(data))
 		if err != nil {
 			c.Count("input-not-decodable")
-			continue
+			return true
 		}
 		c10CurIn = inFile
+		if spec[0] == "long" {
+			// the executable model walks the tables sample by sample (quadratic in the number of kept samples): model
+			// correspondence lines only for long files with few samples (slow tracks); the direct oracle covers all
+			total := 0
+			for _, t := range in.tracks {
+				total += t.n
+			}
+			if total > 6000 {
+				c10CurIn = nil
+				c.Count("long: model lines skipped (more than 6000 samples)")
+			}
+		}
 		c.Count("file:" + spec[0])
 		describeInput(c, in)
 		q := quota
 		if spec[0] == "repo" {
 			q = c.N(40, 120)
+		}
+		if spec[0] == "long" {
+			q = c.N(40, 80)
 		}
 		durs := cropDurations(r, in, q, exhaustBelow)
 		dir, done := scratchDir("f")
@@ -527,9 +555,30 @@ func genC10(c *Ctx) {
 		for i, ms := range durs {
 			req := fmt.Sprintf("crop %d %s", ms, strings.Join(spec, " "))
 			checkCrop(c, req, in, ms, results[i].r, results[i].out)
+			if spec[0] == "long" && results[i].r.exit == 0 {
+				if ri := in.refTrack(); ri >= 0 && ms*uint64(in.tracks[ri].timescale)/1000 >= 1<<32 {
+					c.Count("long: successful crop later than 2^32 ticks of the reference track")
+				} else {
+					c.Count("long: successful crop before 2^32 ticks of the reference track")
+				}
+			}
 		}
 		if len(c.St.Samples) < 4 {
 			c.Sample(fmt.Sprintf("crop %d %s", durs[len(durs)/2], strings.Join(spec, " ")))
+		}
+		return true
+	}
+	for _, spec := range specs {
+		if !runSpec(spec) {
+			return
+		}
+	}
+	// long tracks (decode times beyond 2^32 ticks), see c10_long.go; generated after the other inputs so that their
+	// random stream is unchanged
+	for i := 0; i < c.N(12, 60); i++ {
+		sub := strconv.FormatInt(r.Int63(), 10)
+		if !runSpec([]string{"long", sub, strconv.Itoa(1 + r.Intn(3))}) {
+			return
 		}
 	}
 }
